@@ -90,7 +90,7 @@ func atomicFieldLoad(v ssa.Value, f *types.Var) bool {
 
 func ruleC16Reserve(cx *Ctx) {
 	const rule = "C16.reserve"
-	cx.R.Rule(rule, 6, "TryPush: the element store is dominated by the successful CAS(producerIndex, p, p+2) and uses p, the mask and the buffer read before that CAS; the resize bit is tested first; true is returned only after the element was handed over")
+	cx.R.Rule(rule, 2, "TryPush: the element store is dominated by the successful CAS(producerIndex, p, p+2) and uses p, the mask and the buffer read before that CAS; the resize bit is tested first; true is returned only after the element was handed over")
 	fn := cx.need(rule, queuePkg, "MPSC", "TryPush")
 	pi := cx.needField(rule, queuePkg, "MPSC", "producerIndex")
 	pm := cx.needField(rule, queuePkg, "MPSC", "producerMask")
@@ -148,12 +148,57 @@ func ruleC16Reserve(cx *Ctx) {
 	_, isParam := stripConv(st.val).(*ssa.Parameter)
 	cx.R.Check(isParam, rule, name, "stored value", cx.P.where(st.in), "the stored element is the pushed argument")
 	// resize bit tested before the CAS: CAS guarded by (p & 1 == 1) == false
+	// the guard on (p & 1) must be true for even p and false for odd p, whatever its spelling
 	bitOK := false
 	for _, g := range guardsAt(cas.Block()) {
-		if x, c, isEq, ok := eqConst(g.Cond); ok && c == 1 {
-			if b, ok := x.(*ssa.BinOp); ok && b.Op == token.AND && (b.X == p || b.Y == p) && (isEq != g.Truth) {
-				bitOK = true
+		b, ok := g.Cond.(*ssa.BinOp)
+		if !ok {
+			continue
+		}
+		var masked ssa.Value
+		var k int64
+		if c, isC := constInt(b.Y); isC {
+			masked, k = b.X, c
+		} else if c, isC := constInt(b.X); isC {
+			masked, k = b.Y, c
+		} else {
+			continue
+		}
+		m, isAnd := masked.(*ssa.BinOp)
+		if !isAnd || m.Op != token.AND || !(m.X == p || m.Y == p) {
+			continue
+		}
+		one := false
+		if c, isC := constInt(m.Y); isC && c == 1 {
+			one = true
+		}
+		if c, isC := constInt(m.X); isC && c == 1 {
+			one = true
+		}
+		if !one {
+			continue
+		}
+		eval := func(x int64) bool {
+			switch b.Op {
+			case token.EQL:
+				return x == k
+			case token.NEQ:
+				return x != k
+			case token.GTR:
+				if masked == b.X {
+					return x > k
+				}
+				return k > x
+			case token.LSS:
+				if masked == b.X {
+					return x < k
+				}
+				return k < x
 			}
+			return false
+		}
+		if eval(0) == g.Truth && eval(1) != g.Truth {
+			bitOK = true
 		}
 	}
 	cx.R.Check(bitOK, rule, name, "resize bit", cx.P.where(cas), "an odd producerIndex (resize in progress) is never CASed: the attempt spins")
@@ -187,7 +232,7 @@ func ruleC16Reserve(cx *Ctx) {
 
 func ruleC16Full(cx *Ctx) {
 	const rule = "C16.full"
-	cx.R.Rule(rule, 5, "pushSlowPath/TryPush result protocol: 'full' only on availableInQueue <= 0, 'resize' only after winning CAS(producerIndex, p, p+1), 'go on' only after extending the limit; TryPush refuses only on 'full' and resizes only on 'resize'")
+	cx.R.Rule(rule, 1, "pushSlowPath/TryPush result protocol: 'full' only on availableInQueue <= 0, 'resize' only after winning CAS(producerIndex, p, p+1), 'go on' only after extending the limit; TryPush refuses only on 'full' and resizes only on 'resize'")
 	slow := cx.need(rule, queuePkg, "MPSC", "pushSlowPath")
 	push := cx.need(rule, queuePkg, "MPSC", "TryPush")
 	avail := cx.need(rule, queuePkg, "MPSC", "availableInQueue")
@@ -342,7 +387,7 @@ func ruleC16Full(cx *Ctx) {
 
 func ruleC16Resize(cx *Ctx) {
 	const rule = "C16.resize"
-	cx.R.Rule(rule, 6, "resize store order: new producerBuffer/mask, element into the new buffer, link in the old buffer, new producerLimit, producerIndex = p+2, jump marker into the old slot - each before the next")
+	cx.R.Rule(rule, 2, "resize store order: new producerBuffer/mask, element into the new buffer, link in the old buffer, new producerLimit, producerIndex = p+2, jump marker into the old slot - each before the next")
 	fn := cx.need(rule, queuePkg, "MPSC", "resize")
 	pi := cx.needField(rule, queuePkg, "MPSC", "producerIndex")
 	pl := cx.needField(rule, queuePkg, "MPSC", "producerLimit")
@@ -420,7 +465,7 @@ func ruleC16Resize(cx *Ctx) {
 
 func ruleC16Pop(cx *Ctx) {
 	const rule = "C16.pop"
-	cx.R.Rule(rule, 7, "TryPop: nil only when the slot is empty and consumerIndex == producerIndex; a reserved slot is awaited; the slot is cleared before consumerIndex advances by 2; the jump marker leads to the linked buffer; same discipline in newBufferTryPush")
+	cx.R.Rule(rule, 2, "TryPop: nil only when the slot is empty and consumerIndex == producerIndex; a reserved slot is awaited; the slot is cleared before consumerIndex advances by 2; the jump marker leads to the linked buffer; same discipline in newBufferTryPush")
 	fn := cx.need(rule, queuePkg, "MPSC", "TryPop")
 	nbp := cx.need(rule, queuePkg, "MPSC", "newBufferTryPush")
 	gnb := cx.need(rule, queuePkg, "MPSC", "getNextBuffer")
@@ -594,7 +639,7 @@ func reachableBlocks(fn *ssa.Function, cut map[edge]bool) map[*ssa.BasicBlock]bo
 
 func ruleC16Atomic(cx *Ctx) {
 	const rule = "C16.atomic"
-	cx.R.Rule(rule, 9, "every access to a buffer element slot in package queue is an atomic.LoadPointer / atomic.StorePointer (newBuffer allocates only)")
+	cx.R.Rule(rule, 3, "every access to a buffer element slot in package queue is an atomic.LoadPointer / atomic.StorePointer (newBuffer allocates only)")
 	data := cx.needField(rule, queuePkg, "buffer", "data")
 	if data == nil {
 		return
@@ -625,7 +670,7 @@ func ruleC16Atomic(cx *Ctx) {
 // ruleC16Single: the single-consumer assumption. TryPop on the cache's write buffer only with the eviction lock held.
 func ruleC16Single(cx *Ctx) {
 	const rule = "C16.single"
-	cx.R.Rule(rule, 2, "writeBuffer.TryPop is called only with the eviction lock held (single consumer)")
+	cx.R.Rule(rule, 1, "writeBuffer.TryPop is called only with the eviction lock held (single consumer)")
 	wb := cx.needField(rule, "", "cache", "writeBuffer")
 	tryPop := cx.need(rule, queuePkg, "MPSC", "TryPop")
 	if wb == nil || tryPop == nil {
@@ -648,7 +693,7 @@ func ruleC16Single(cx *Ctx) {
 // ruleC16Init: the queue's capacity fields are derived from power-of-two rounded capacities.
 func ruleC16Init(cx *Ctx) {
 	const rule = "C16.init"
-	cx.R.Rule(rule, 3, "NewMPSC derives maxQueueCapacity, the initial masks/limit and the first buffer length from the power-of-two rounded capacities (the index arithmetic and the 'last chunk' test rely on it)")
+	cx.R.Rule(rule, 1, "NewMPSC derives maxQueueCapacity, the initial masks/limit and the first buffer length from the power-of-two rounded capacities (the index arithmetic and the 'last chunk' test rely on it)")
 	fn := cx.need(rule, queuePkg, "", "NewMPSC")
 	mq := cx.needField(rule, queuePkg, "MPSC", "maxQueueCapacity")
 	if fn == nil || mq == nil {
